@@ -296,8 +296,8 @@ class Runner(tl.Driver):
             elif k == 'optimize_width': tl.timed(table.optimize_width)
             elif k == 'transpose': tl.timed(table.transpose)
             elif k == 'row_rstrip': tl.timed(tl.timed(table.get_row, o[1], clone=False).rstrip, aggressive=o[2])
-            elif k == 'set_span': tl.timed(table.set_span, tuple(o[1]), merge=o[2])
-            elif k == 'del_span': tl.timed(table.del_span, (o[1], o[2]))
+            elif k == 'set_span': self.last_ret = tl.timed(table.set_span, tuple(o[1]), merge=o[2])
+            elif k == 'del_span': self.last_ret = tl.timed(table.del_span, (o[1], o[2]))
             elif k == 'live_col':
                 c = tl.timed(table.append_column, tl.mk_column(od, o[1], o[2]))
 
@@ -351,11 +351,30 @@ class Runner(tl.Driver):
                 a2, traised = self.apply(st['op'])
             coq_op = 'CModel (BMut (%s))' % tl.c_op(a)
         elif 'opaque' in st:
-            raised = self.apply_opaque(st['opaque'], t)
-            traised = self.apply_opaque(st['opaque'], twin)
             k_ = st['opaque'][0]
+            span = None
+            if k_ == 'del_span':
+                # the span carried by the addressed cell of the pre-state (read on a fresh parse: no cache of the live table is touched)
+                try:
+                    c0 = self.fresh_of(t).get_cell((st['opaque'][1], st['opaque'][2]))
+                    span = (c0.get_attribute_integer('table:number-columns-spanned'), c0.get_attribute_integer('table:number-rows-spanned'))
+                except Exception:
+                    span = None
+            self.last_ret = None
+            raised = self.apply_opaque(st['opaque'], t)
+            ret = self.last_ret
+            traised = self.apply_opaque(st['opaque'], twin)
+            tret = self.last_ret
             coq_op = 'COpaque'
+            if not raised and k_ in ('set_span', 'del_span'):
+                st['returned'] = ret
+                if ret != tret:
+                    raised = 'returned %r, the same call on a fresh parse of the table returned %r' % (ret, tret); traised = None
             if not raised:
+                if k_ == 'set_span' and isinstance(ret, bool):
+                    coq_op = 'CSetSpan (%d) (%d) (%d) (%d) %s' % (tuple(st['opaque'][1]) + (c_b(ret),))
+                elif k_ == 'del_span' and isinstance(ret, bool) and span is not None:
+                    coq_op = 'CDelSpan (%d) (%d) (%d) (%d) %s' % (st['opaque'][1], st['opaque'][2], span[0] or 0, span[1] or 0, c_b(ret))
                 if k_ in ('rstrip', 'optimize_width', 'transpose'): coq_op = 'CXform'
                 elif k_ == 'row_rstrip' and not st['opaque'][2]: coq_op = 'CRowRstrip (%d)' % st['opaque'][1]
                 elif k_ == 'live_col': coq_op = 'CLiveCol %d%%nat' % (st['opaque'][3] or 0)
@@ -509,6 +528,7 @@ def gen_case(odfdo, seed, kind, nsteps, kinds=tl.OPS_CORE, maxw=8, maxh=8, reloa
     nodes = r.init_nodes
     r.obs_gen = lambda post: g_obs(rng, post)
     n = 0
+    spans = []
     try:
         for _ in range(nsteps):
             todo = []
@@ -516,7 +536,10 @@ def gen_case(odfdo, seed, kind, nsteps, kinds=tl.OPS_CORE, maxw=8, maxh=8, reloa
                 todo += [dict(read=g_fill_read(rng, nodes)) for _ in range(rng.choice([1, 1, 2]))]
             x_ = rng.random()
             if x_ < p_opaque:
-                todo.append(dict(opaque=g_opaque(rng, nodes)))
+                o_ = g_opaque(rng, nodes)
+                if o_[0] == 'del_span' and spans and rng.random() < 0.7:
+                    o_ = ['del_span'] + list(rng.choice(spans))       # a span an earlier set_span of this history has made
+                todo.append(dict(opaque=o_))
             elif x_ < p_opaque + p_live:
                 todo.append(dict(live=g_live(rng, nodes)))
             else:
@@ -528,6 +551,8 @@ def gen_case(odfdo, seed, kind, nsteps, kinds=tl.OPS_CORE, maxw=8, maxh=8, reloa
                 case['steps'].append(st)
                 rec = r.step(st)
                 nodes = rec['post_after_reads']
+                if st.get('opaque', [None])[0] == 'set_span' and st.get('returned') is True:
+                    spans.append(tuple(st['opaque'][1][:2]))
                 if rec['raised']:
                     stop = True; break
             if stop:
